@@ -143,6 +143,8 @@ fn worker(args: &[String]) -> i32 {
     let out = arg(args, "--out").expect("--out");
     let deadline_ms: u64 = arg(args, "--deadline-ms").and_then(|s| s.parse().ok()).unwrap_or(u64::MAX);
     let max_viol: usize = arg(args, "--max-violations").and_then(|s| s.parse().ok()).unwrap_or(2);
+    let record_below: u64 = arg(args, "--record-outcomes-below").and_then(|s| s.parse().ok()).unwrap_or(0);
+    let mut outcome_fps: BTreeMap<String, u64> = BTreeMap::new();
     let thorough = tier == "thorough";
     ops::install_panic_hook();
     let _ = simenv::sim();
@@ -175,6 +177,9 @@ fn worker(args: &[String]) -> i32 {
         let rep = props::run_plan(&plan, false);
         runs += 1;
         progress.store(runs, std::sync::atomic::Ordering::SeqCst);
+        if index < record_below {
+            outcome_fps.insert(index.to_string(), rep.outcome_fp());
+        }
         if rep.nontrivial {
             nontrivial_fps.insert(rep.fingerprint);
         }
@@ -288,6 +293,7 @@ fn worker(args: &[String]) -> i32 {
         "strategies": map_json(&strategies), "counters": map_json(&counters),
         "sim_time_ns": sim_time_ns.to_string(), "max_steps_in_a_run": max_steps,
         "provider_reset_unavailable": props::RESET_UNAVAILABLE.load(std::sync::atomic::Ordering::Relaxed),
+        "outcome_fps": map_json(&outcome_fps),
         "samples": samples, "violations": violations, "unlisted_violations": unlisted,
         "known_hits": map_json(&known_hits),
     });
@@ -312,6 +318,45 @@ fn replay(args: &[String]) -> i32 {
     };
     let _wd = start_watchdog();
     let doc: Value = serde_json::from_str(&text).expect("replay file is JSON");
+    if doc["kind"].as_str() == Some("process-history") {
+        // the same run as the first thing a process does, and after a history
+        // of other runs in this process: the outcomes must be the same
+        let prop = doc["property"].as_str().unwrap_or("C20").to_string();
+        let seed = doc["verif_seed"].as_u64().unwrap_or(1);
+        let tier = doc["tier"].as_str().unwrap_or("quick").to_string();
+        let thorough = tier == "thorough";
+        let index = doc["run_index"].as_u64().unwrap_or(0);
+        let fresh = std::env::current_exe().ok().and_then(|exe| {
+            std::process::Command::new(exe)
+                .args(["outcome-fp", "--prop", &prop, "--tier", &tier, "--seed", &seed.to_string(), "--index", &index.to_string()])
+                .output()
+                .ok()
+        });
+        let fresh_fp = fresh
+            .map(|o| String::from_utf8_lossy(&o.stdout).trim().to_string())
+            .unwrap_or_default();
+        let mut after = 0u64;
+        for i in 0..=index {
+            let plan = props::generate(&prop, run_seed(seed, &prop, i), thorough);
+            let rep = props::run_plan(&plan, false);
+            if i == index {
+                after = rep.outcome_fp();
+                for l in &rep.lines {
+                    println!("  {l}");
+                }
+            }
+        }
+        println!("outcomes of run {index} as the first run of a process: {fresh_fp}");
+        println!("outcomes of run {index} after runs 0..{index} in one process: {after:016x}");
+        return if fresh_fp != format!("{after:016x}") {
+            println!("class: depends-on-process-history");
+            println!("VIOLATION property={prop} replay={path}");
+            1
+        } else {
+            println!("not reproduced: the outcomes are identical");
+            0
+        };
+    }
     if doc["kind"].as_str() == Some("history") {
         // re-execute a worker's history of runs in one process
         let prop = doc["property"].as_str().unwrap_or("C20").to_string();
@@ -451,6 +496,20 @@ fn main() {
         Some("replay") => replay(&args[1..]),
         Some("fingerprints") => fingerprints(&args[1..]),
         Some("show") => show(&args[1..]),
+        Some("outcome-fp") => {
+            let a = &args[1..];
+            let prop = arg(a, "--prop").expect("--prop");
+            let seed: u64 = arg(a, "--seed").and_then(|s| s.parse().ok()).unwrap_or(1);
+            let index: u64 = arg(a, "--index").and_then(|s| s.parse().ok()).unwrap_or(0);
+            let thorough = arg(a, "--tier").map(|t| t == "thorough").unwrap_or(false);
+            ops::install_panic_hook();
+            let _ = simenv::sim();
+            let _wd = start_watchdog();
+            let plan = props::generate(&prop, run_seed(seed, &prop, index), thorough);
+            let rep = props::run_plan(&plan, false);
+            println!("{:016x}", rep.outcome_fp());
+            0
+        }
         Some("free") => {
             // free-threaded run (for Miri): tzsim free --seed S [--verbose]
             let seed: u64 = arg(&args, "--seed").and_then(|s| s.parse().ok()).unwrap_or(1);
